@@ -23,6 +23,7 @@ func newTr(ld *loader, name string, cfg *config) *tr {
 	return &tr{ld: ld, p: &pipeline{name: name, inTemplate: true}, cfg: cfg, cellID: map[*cell]int{},
 		carried: map[int][]AV{}, sent: map[int][]AV{}, mapName: map[int]string{},
 		dataMaps: map[int]bool{}, dataMapsNew: map[int]bool{}, ranged: map[int]bool{}, rangedNew: map[int]bool{},
+		nilID:   -1,
 		chanSub: map[string]int{}, goSite: map[*ast.GoStmt]string{}, effMemo: map[*ast.BlockStmt]bool{}, nextRoot: -1}
 }
 
@@ -261,7 +262,7 @@ func (t *tr) newNamedChan(name string, cap int) int {
 }
 
 // subscribeHook: p.SubscribeMsg(n, ...) gives a channel fed by the peers
-func subscribeHook(t *tr, recv AV, name string, ce *ast.CallExpr, args []AV) ([]AV, bool) {
+func subscribeHook(t *tr, recv AV, name string, ce *ast.CallExpr, args []AV) ([]*cont, bool) {
 	o, ok := recv.(avOpaque)
 	if !ok || o.s != "p2p" || name != "SubscribeMsg" {
 		return nil, false
@@ -272,7 +273,7 @@ func subscribeHook(t *tr, recv AV, name string, ce *ast.CallExpr, args []AV) ([]
 	}
 	ch := t.newNamedChan("p2p.SubscribeMsg."+t.fname(), cap)
 	t.envSender("env.peers", ch)
-	return []AV{avTuple{[]AV{avChan{ch}, avNil{}}}}, true
+	return t.ret(avTuple{[]AV{avChan{ch}, avNil{}}}), true
 }
 
 func buildQuery(ld *loader, variant, ptype string) (*pipeline, error) {
@@ -307,8 +308,10 @@ func buildQuery(ld *loader, variant, ptype string) (*pipeline, error) {
 
 func buildGrouping(ld *loader) (*pipeline, error) {
 	var pd *avStruct
-	cfg := &config{assumeFalse: []string{"!isMember", "err != nil", "loaded"}}
-	cfg.opaque = func(t *tr, recv AV, name string, ce *ast.CallExpr, args []AV) ([]AV, bool) {
+	// nothing is assumed away: Grouping fails (nil channels, error) for a group id that is already
+	// in the table, and handleGrouping's handling of that is part of the pipeline
+	cfg := &config{}
+	cfg.opaque = func(t *tr, recv AV, name string, ce *ast.CallExpr, args []AV) ([]*cont, bool) {
 		if o, ok := recv.(avOpaque); ok && o.s == "dkg" && name == "Grouping" {
 			f, err := t.method("share/dkg/pedersen", "pdkg", "Grouping", pd)
 			if err != nil {
@@ -316,14 +319,10 @@ func buildGrouping(ld *loader) (*pipeline, error) {
 				return nil, false
 			}
 			rets := t.inline(f, args, ce)
-			if len(rets) != 1 {
-				t.errorf(ce, "Grouping returns along %d paths", len(rets))
-				return nil, false
+			for _, c := range rets {
+				c.vals = []AV{avTuple{c.vals}}
 			}
-			t.cur = rets[0]
-			vals := rets[0].vals
-			rets[0].vals = nil
-			return []AV{avTuple{vals}}, true
+			return rets, true
 		}
 		return subscribeHook(t, recv, name, ce, args)
 	}
